@@ -726,7 +726,7 @@ def replace_str(s, frm, to, limit=None, hard_cap=None):
         for st_, _ in emits: nm16 = bv_add(nm16, ite_bv(st_, tl, 0, 16), 16)
         true_len = bv_add(kept, nm16, 16)
         over = bv_ult(hard_cap, true_len, 16)
-        return Fork([(over, StopR('bound:strcap', 'replace result longer than %d bytes' % hard_cap)), (b_not(over), result)])
+        return _CapOblig(over, result, hard_cap)
     return result
 
 
@@ -1405,6 +1405,12 @@ def m_iter_find(ex, st, c):
     return step(0)
 
 
+class _CapOblig:
+    """result valid under the assumption `not over`; the executor discharges all such assumptions with one query per terminal path"""
+
+    def __init__(s, over, v, cap): s.over = over; s.v = v; s.cap = cap
+
+
 class LazyR:
     """a result computed only when its branch is taken"""
 
@@ -1785,6 +1791,9 @@ def install_apply_hooks():
             if res.sr is not None:
                 srs = res.sr if (res.sr and isinstance(res.sr[0], tuple)) else (res.sr,)
                 for ref, val in srs: s.store(st, ref, val)
+            return s.apply_result(st, fr, dest, ret_bb, res.v)
+        if isinstance(res, _CapOblig):
+            if res.over is not False: st.world['_cap_over'] = st.world.get('_cap_over', ()) + (res.over,)
             return s.apply_result(st, fr, dest, ret_bb, res.v)
         if isinstance(res, LazyR):
             th = res.thunk
